@@ -1031,6 +1031,12 @@ def run(ctx):
     r09f(ctx)
     r09g(ctx)
     r09h(ctx)
+    # R09i "any dataflow topology": the map of shared maskers built for the conversion gives a
+    # masker to every layer that reads one, also to a depthwise convolution whose input is a
+    # channel concatenation (no node of that width group defines a width), and keeps the widths
+    # concatenated into it -- the graph worlds of C08, interpreted
+    from .c08 import r08f
+    r08f(ctx, rule='R09i')
     ctx.assume('torch.cat keeps the order of its inputs; buffers registered under distinct names '
                'are distinct state')
 
